@@ -1,7 +1,7 @@
 import KrroodVerif.Lemmas.EqlCover
 /-!
 Totality of true cells on `F2` and the counting argument behind `C02_multiplicity`:
-on `F2`, with truthy duplicate-free domains, the true result cells of `eval w (build c) []` are in bijection
+on `F2`, with duplicate-free domains, the true result cells of `eval w (build c) []` are in bijection
 with the satisfying total assignments. Core Lean only.
 -/
 namespace KrroodVerif.Eql
@@ -374,7 +374,7 @@ theorem selRow (w : World) (env : Env) (svs : List VarId) (hb : Binds env svs) :
     cases hl : env.lookup (.var v) with
     | none => rw [hl] at this; cases this
     | some x =>
-      simp only [evalTerm, evalVar, hl, List.map_cons, Option.getD_some]
+      simp only [evalTerm, evalVarAt, hl, List.map_cons, Option.getD_some]
       rfl
 
 theorem selTval (w : World) (σ : Asg) (svs : List VarId) (hb : ∀ v ∈ svs, (σ.lookup v).isSome = true) :
@@ -408,7 +408,7 @@ theorem count_true_cells {σ : Asg} {rs : List (Env × Bool)} {b : Bool}
 evaluation and the first-order specification agree as multisets of rows -/
 theorem multiplicity_core (w : World) (svs : List VarId) (c : SExpr) (hF : c.F2 = true)
     (hocc : ∀ v ∈ svs, v ∈ c.freeVars)
-    (hdt : DomTruthy w) (hnd : ∀ v, (w.dom v).Nodup) (hlit : LitNodup (build c))
+    (hnd : ∀ v, (w.dom v).Nodup) (hlit : LitNodup (build c))
     {rows rows' : List (List Val)}
     (h1 : evalQuery w { sel := svs.map Term.var, cond := some (build c) } = .ok rows)
     (h2 : solutions w { sel := svs.map Term.var, cond := some c } = .ok rows') :
@@ -488,8 +488,8 @@ theorem multiplicity_core (w : World) (svs : List VarId) (c : SExpr) (hF : c.F2 
       exact ⟨x, hx, by rw [(hnd v).count]; simp [hxd]⟩
     have hsat : satE w (build c) σ = .ok (pred σ) := by
       rw [← satE_build]; exact hpred σ hσ
-    have hcover := cover w hdt σ (build c) (Expr.F2_Fc heF) hcov hlit [] rs (pred σ)
-      (fun _ _ h => by cases h) (fun _ _ => rfl) (agreesB_nil σ) hrs hsat
+    have hcover := cover w σ (build c) (Expr.F2_Fc heF) hcov hlit [] rs (pred σ)
+      (fun _ _ => rfl) (agreesB_nil σ) hrs hsat
     have hL : (T.map (toAsg vs)).count σ = if pred σ then 1 else 0 := by
       rw [List.count_eq_countP, List.countP_map, List.countP_eq_length_filter, hT, List.filter_map,
         List.length_map, ← count_true_cells hcover]
